@@ -79,5 +79,10 @@ CHECKS = {
    text='Functional: M\' = M[a..a+w := old + trunc_w(src)], nothing else written, misaligned => interpreter Err with empty write log, same memory effect in JIT and Cranelift code. Shapes: one AtomicU32/U64::fetch_add after the alignment test; one F0-prefixed 01 /r on a memory operand of the right width; one atomic_rmw.i32/i64 add. '
         'Interleavings: 2 (thorough 3) threads x 2 adds, every multiset of engines, schedule = symbolic position variables: final word = initial + sum of addends mod 2^w for every schedule; a twin model with a split update must lose an update.',
    note='Trusted: atomicity of fetch_add, of the lock prefix and of Cranelift atomic_rmw; sequentially consistent interleaving of the extracted steps. Bounds: threads and adds as stated.'),
+ 'C09': dict(level='model_checking', engine='mirsym+x86sym+clifsym', design_ref='DESIGN.md 5/C09',
+   technique='symbolic execution of the MIR of the interpreter prelude and of the VM wrapper methods in src/lib.rs (self as a lazily materialised symbolic struct, engines as argument-recording stubs) + x86sym on the JIT prologue of each variant + clifsym on the Cranelift prelude; z3',
+   text='Interpreter entry: r1 = metadata buffer / packet / 0, r10 = stack top, other registers 0. Wrappers of the 4 VM kinds x 3 engines: the buffers, lengths, null-for-empty packet pointer and offsets handed to each engine are the documented ones for every packet and configuration; '
+        'EbpfVmFixedMbuff writes exactly (buffer+data_offset := packet start) and (buffer+data_end_offset := packet end) under the interpreter and Cranelift. JIT prologues (mbuff, raw/no-data, fixed x 3 offset pairs): r1, r10 = top of a reserved 512-byte area, packet pointer kept for ld_abs, the two stores of the fixed variant. Cranelift prelude: r1 select, r10, 512-byte slot. Native probes confirm through the public API.',
+   note='Trusted: rustc MIR, x86/CLIF semantics tables, z3. Offsets <= 2^40; non-overlapping offsets (statement); the empty-metadata-buffer case of the metadata VM is not claimed. Native probes are confirmation only.'),
 }
 NOT_APPLICABLE = {}
